@@ -769,10 +769,12 @@ fn _solve<T: FloatT>(Lp: &[usize], Li: &[usize], Lx: &[T], Dinv: &[T], b: &mut [
 
 // Construct an inverse permutation from a permutation
 fn _invperm(p: &[usize]) -> Result<Vec<usize>, QDLDLError> {
-    let mut b = vec![0; p.len()];
+    // mark unset entries with a value that no index can take, so
+    // that a repeat of the entry that p[0] points at is also detected
+    let mut b = vec![usize::MAX; p.len()];
 
     for (i, j) in p.iter().enumerate() {
-        if *j < p.len() && b[*j] == 0 {
+        if *j < p.len() && b[*j] == usize::MAX {
             b[*j] = i;
         } else {
             return Err(QDLDLError::InvalidPermutation);
